@@ -137,3 +137,119 @@ def describe(row):
         if k in i:
             parts.append('%s=%s' % (k, i[k]))
     return ', '.join(parts) + ' -> row %s / %s, effects %s' % (row['row'], row['action'], sorted(row['effects']) or '-')
+
+
+def tick_wiring(ctx, rule='tick-wiring'):
+    """Subscription::tick feeds update_state.  Structural conditions both C21 and C22 need:
+    (timer) the publishing timer is tested-and-rearmed (test_and_set_publishing_interval_elapsed) only on a TickTimerFired tick -
+            a publish request arriving must not re-arm it;
+    (reach) update_state is reached whenever a publish request is queued, whenever the interval elapsed and whenever
+            notifications are available (it is the only way out of the Late state and the only place the counters move);
+    (params) the parameters handed over are the tick's own: publishing_req_queued, notifications_available, more_notifications
+            and publishing_timer_expired = the elapsed flag; handle_state_result follows with the drained notification."""
+    import re
+    from ..rulelib import reachable_under
+    from ..facts import fmt_lit, fmt_sym
+    r, db = ctx.r, ctx.db
+    b = db.body('server::subscriptions::subscription::Subscription::tick')
+    if b is None:
+        r.lost(rule, 'tick', 'Subscription::tick not found'); return
+    F = ctx.facts(b)
+    us = [c for c in b.calls() if c.callee.endswith('Subscription::update_state')]
+    ts = [c for c in b.calls() if c.callee.endswith('Subscription::test_and_set_publishing_interval_elapsed')]
+    hs = [c for c in b.calls() if c.callee.endswith('Subscription::handle_state_result')]
+    if len(us) != 1 or not ts or len(hs) != 1:
+        r.lost(rule, 'calls', 'update_state / test_and_set_publishing_interval_elapsed / handle_state_result calls not recognised in tick'); return
+    n = 0
+    # (timer)
+    for c in ts:
+        n += 1
+        lits = [fmt_lit(b, l) for l, e in F.literals_at(c.bb)]
+        if any(re.match(r'^tick_reason\(_\d+\) is TickTimerFired$', x) or re.match(r'^tick_reason\(_\d+\) is not ReceivePublishRequest$', x) for x in lits):
+            r.ok(rule, 'timer', 'the publishing timer is tested and re-armed only on a TickTimerFired tick', loc=c.loc)
+        else:
+            r.fail(rule, 'timer', 'test_and_set_publishing_interval_elapsed is also called on a tick caused by a publish request: the request re-arms the publishing timer, '
+                   'the next timer tick sees no elapsed interval and the keep-alive / lifetime counters stop moving', loc=c.loc)
+    # (reach)
+    u = us[0]
+    for pname, label in (('publishing_req_queued', 'a publish request is queued'),):
+        ps = b.local_by_name(pname)
+        n += 1
+        if not ps:
+            r.lost(rule, 'reach:' + pname, 'parameter %s not found' % pname); continue
+        reach = reachable_under(b, F, lambda e: e == ('place', ps[0], ()), 1)
+        # blocks reachable when the flag is true, not passing the update_state call
+        seen = {0}; work = [0]
+        while work:
+            x = work.pop()
+            if x == u.bb:
+                continue
+            for s_ in b.succ(x):
+                if s_ in reach and s_ not in seen and not b.is_cleanup(s_):
+                    seen.add(s_); work.append(s_)
+        if any(rb in seen for rb in b.return_blocks()):
+            r.fail(rule, 'reach:' + pname, 'tick can return without calling update_state although %s: a Late subscription is never released and queued requests are '
+                   'neither answered nor counted' % label, loc=u.loc)
+        else:
+            r.ok(rule, 'reach:' + pname, 'update_state is reached on every path when %s' % label, loc=u.loc)
+    # elapsed / notifications flags are locals: the call must be reachable directly through their true edges
+    for lname, label in (('publishing_interval_elapsed', 'the publishing interval elapsed'), ('notifications_available', 'notifications are available')):
+        ls = b.local_by_name(lname)
+        n += 1
+        if not ls:
+            r.lost(rule, 'reach:' + lname, 'local %s not found' % lname); continue
+        reach = reachable_under(b, F, lambda e: e == ('place', ls[0], ()), 1)
+        seen = {0}; work = [0]
+        while work:
+            x = work.pop()
+            if x == u.bb:
+                continue
+            for s_ in b.succ(x):
+                if s_ in reach and s_ not in seen and not b.is_cleanup(s_):
+                    seen.add(s_); work.append(s_)
+        # only paths on which the flag was actually tested count: require that the guard switch on the flag exists
+        tested = any(blk['t'][0] == 'switch' and F.sym_operand(blk['t'][1]) == ('place', ls[0], ()) for blk in b.blocks)
+        if tested and not any(rb in seen for rb in b.return_blocks()):
+            r.ok(rule, 'reach:' + lname, 'update_state is reached on every path when %s' % label, loc=u.loc)
+        else:
+            r.fail(rule, 'reach:' + lname, 'tick can return without calling update_state although %s' % label, loc=u.loc)
+    # (params)
+    n += 1
+    p = fmt_sym(b, F.sym_operand(u.args[2]))
+    adt = db.adts.get('server::subscriptions::subscription::SubscriptionStateParams')
+    order = [f[0] for f in adt['variants'][0]['fields']] if adt else []
+    def split_top(t):
+        out, d, cur = [], 0, ''
+        for ch in t:
+            if ch in '([{':
+                d += 1
+            elif ch in ')]}':
+                d -= 1
+            if ch == ',' and d == 0:
+                out.append(cur.strip()); cur = ''
+            else:
+                cur += ch
+        if cur.strip():
+            out.append(cur.strip())
+        return out
+    inner = p.split('{', 1)[1].rsplit('}', 1)[0] if '{' in p else ''
+    vals = split_top(inner)
+    got = dict(zip(order, vals))
+    def same(field, val):
+        if field == 'more_notifications':    # a function of the queued notifications
+            return 'notifications' in val and 'len(' in val
+        want_ = 'publishing_interval_elapsed' if field == 'publishing_timer_expired' else field
+        return re.match(r'^%s\(_\d+\)$' % want_, val) is not None
+    expect = got if (order and len(vals) == len(order) and all(same(f, v) for f, v in got.items())) else None
+    if order and got == expect and fmt_sym(b, F.sym_operand(u.args[1])).startswith('tick_reason'):
+        r.ok(rule, 'params', 'update_state receives the tick reason and the four flags of this tick, field by field', loc=u.loc)
+    else:
+        r.fail(rule, 'params', 'update_state is called with %s (fields %s): the flags are not the ones computed for this tick' % (p[:120], order), loc=u.loc)
+    n += 1
+    h = hs[0]
+    if b.dominates(u.bb, h.bb) and 'notification' in fmt_sym(b, F.sym_operand(h.args[3])) and 'update_state' in fmt_sym(b, F.sym_operand(h.args[2])):
+        r.ok(rule, 'handle', 'handle_state_result(now, result of update_state, drained notification) follows update_state', loc=h.loc)
+    else:
+        r.fail(rule, 'handle', 'handle_state_result is not called with the result of update_state and the drained notification', loc=h.loc)
+    r.count('tick_wiring_sites', n)
+    r.floor(rule, 'tick_wiring_sites', n, 6)
